@@ -20,7 +20,9 @@ Reference model (independent of autoarray, written from the property statement):
     - r(q) <= max r(B)
     - the output has the shape of the input, entry k belongs to input k.
   B is the set of INPUT source-plane coordinates at the library's own sub_border_slim indices (validated above), for
-  the data grid and for mesh vertices alike.
+  the data grid and for mesh vertices alike.  B is a LIST with one point per border pixel: when the source-plane map is
+  many-to-one and several border (sub-)pixels land on exactly the same coordinate, that coordinate counts once per
+  border pixel in the centroid (the mean is over border pixels, not over distinct coordinates).
 """
 import math
 
@@ -37,7 +39,12 @@ RULE = (
     "restricted to a masked outer ring) x sub-size map (uniform 1, 2, 3 given as int; two per-pixel Array2D maps); per "
     "case the sub-border indices / border grids are checked once and every source-plane transform of the menu "
     "(identity, jittered identity, x0.5, x3, shear, rotate+far shift, central blow-up, fold, collapse to a line, "
-    "collapse to a point) is pushed through relocated_grid_from (outliers substituted for non-border points), "
+    "collapse to a point; and the EXACTLY many-to-one maps of the lattice of sub-pixel centres, under which several border "
+    "(sub-)pixels receive bit-for-bit the same coordinate: fold y->|y|, fold x->|x|, fold both, fold about the diagonal, "
+    "projection onto the y axis, projection onto the diagonal line, rounding to a coarse lattice of 2 and of 1.5 pixels, "
+    "constant map of the upper half plane, clamp of the upper part onto a horizontal line - each followed by a seed-drawn "
+    "injective affine map, half of them with one jitter draw per DISTINCT image point; in the quick tier the menu is "
+    "rotated over the cases, see BOUNDS) is pushed through relocated_grid_from (outliers substituted for non-border points), "
     "relocated_mesh_grid_from (full outlier / on-border / interior vertex menu) and, for two transforms, through "
     "mesh.relocated_grid_from and mesh.Rectangular / mesh.Delaunay / mesh.Voronoi mapper_grids_from with and without the "
     "relocator (same mesh objects, default preloads), then a third transform through the same entry points: call k must "
@@ -64,21 +71,52 @@ ASSUMPTIONS = [
     "Delaunay and Voronoi share Triangulation.mapper_grids_from: both are run for the two main transforms, one of them "
     "(chosen by the parity of the number of unmasked pixels) for the third call or the integer grid",
     "the repeated relocated_mesh_grid_from call on the previous transform's grid (relocator reuse) uses every 3rd vertex",
+    "many-to-one source planes: coincidence of border points is produced on the integer lattice of sub-pixel centres "
+    "(24 x pixel units, exact for sub-sizes <= 4) and carried to floats per DISTINCT lattice point, so coinciding points are "
+    "bitwise equal; the reference centroid / radii use one point per border pixel (multiplicity kept), as the property "
+    "defines the border of the data grid; fold lines / lattice anchors sit at the bounding-box centre plus a seed-drawn "
+    "offset of 0 or half a pixel per axis",
+    "quick tier only: the transform menu is ROTATED over the cases instead of taken in full product (see BOUNDS); which "
+    "transforms a case runs is part of the case (its last entry) and does not depend on the seed",
 ]
 BOUNDS = {
     "quick": "all masks of all frames with <= 9 cells (3 187 masks, incl. 1xN, Nx1, 3x3) + all 511 masks of the 3x3 "
     "interior of a 5x5 frame, each x 5 sub-size maps; all 8 190 masks of the 3x4 and 4x3 frames x 2 sub-size maps "
-    "(uniform 2, per-pixel A); x (10 float source-plane transforms + 1 integer-dtype source plane) x (data grid + 50..80 "
-    "mesh vertices); mesh entry points called 3-4 times per mesh object inside one case",
-    "thorough": "quick + all masks of the 2x5, 5x2, 2x6, 6x2, 3x4, 4x3 frames x 5 sub-size maps + all 65 535 masks of the "
+    "(uniform 2, per-pixel A); x (10 float source-plane transforms out of a menu of 20, see below, + 1 integer-dtype "
+    "source plane) x (data grid + 50..80 mesh vertices); mesh entry points called 3-4 times per mesh object inside one "
+    "case. Transform menu = 10 earlier transforms + 10 exactly many-to-one transforms (coinciding border points); to keep the "
+    "cost of the tier where it was (10 float transforms per case on average), the menu is ROTATED over the cases instead "
+    "of taken in full product: id, x3, shear, blow-up (lattice ties and everything that goes through the mesh entry "
+    "points) run in every case; masks enumerated with 5 sub-size maps run, per sub-size map, a cyclic window of 4 of the "
+    "other 6 earlier transforms and of 2 of the 10 many-to-one transforms, placed so that EVERY MASK meets all 20 "
+    "transforms (each many-to-one transform with exactly one sub-size map, each earlier one with 3-5); masks of the 3x4 "
+    "/ 4x3 frames (2 sub-size maps) run 3 of the other 6 earlier transforms per sub-size map (every mask meets all 10 "
+    "earlier transforms, the rotated ones with one of its two sub-size maps) and 3 of the 10 many-to-one transforms per "
+    "sub-size map (6 of 10 per mask), the window advancing with the number of the mask inside its mask class (frame, "
+    "number of unmasked / border / optional-border pixels), so that every mask class with >= 2 masks (405 of the 409 classes of "
+    "the tier) meets all 20 transforms (the 4 one-mask classes of these two frames - the full frame and the frame "
+    "without its four corners - meet 16). "
+    "The full product is in the thorough tier",
+    "thorough": "FULL product masks x sub-size maps x all 20 float transforms (10 earlier + 10 many-to-one), no rotation: "
+    "quick's masks + all masks of the 2x5, 5x2, 2x6, 6x2, 3x4, 4x3 frames x 5 sub-size maps + all 65 535 masks of the "
     "4x4 frame x 2 sub-size maps (uniform 2, per-pixel A) + all 65 535 masks of the 4x4 interior of a 6x6 frame x uniform "
-    "1; x 10 source-plane transforms",
+    "1; x 20 source-plane transforms + 1 integer-dtype source plane",
 }
 
 SUBMAPS = ["u1", "u2", "u3", "pA", "pB"]
 TRANSFORMS = ["id", "idj", "mag0.5", "mag3", "shear", "rotshift", "blowup", "fold", "line", "point"]
 MAPPER_TRANSFORMS = ("shear", "blowup")
 THIRD_TRANSFORM = "mag3"
+# exactly many-to-one maps of the lattice of sub-pixel centres (several border sub-pixels -> bitwise one coordinate)
+M2O = ["m:fold-y", "m:fold-x", "m:fold-yx", "m:fold-diag", "m:proj-y", "m:proj-diag", "m:coarse2", "m:coarse1.5",
+       "m:const-half", "m:clamp-y"]
+M2O_JITTER = ("m:fold-y", "m:fold-yx", "m:proj-diag", "m:coarse2", "m:const-half")  # one jitter draw per DISTINCT image point
+# quick tier: transforms that run in every case / that are rotated over the cases (see `plan`)
+FIXED = ("id", "mag3", "shear", "blowup")  # lattice ties; the transforms that go through the mesh entry points
+ROTATING = [t for t in TRANSFORMS if t not in FIXED]
+# number of sub-size maps a mask is enumerated with -> (ROTATING per case, M2O per case, ROTATING / M2O window step per
+# sub-size map, M2O window step per mask)
+ROTATION = {5: (4, 2, 2, 2, 1), 2: (3, 3, 3, 5, 3)}
 # integer source planes: 24 x (pixel-unit sub-grid) is integer for every sub-size <= 4; integer maps with det != 0
 INT_MAPS = [((1, 0), (0, 1)), ((1, 1), (0, 2)), ((2, -1), (1, 1)), ((0, -1), (1, 0)), ((3, 1), (-1, 2))]
 
@@ -95,30 +133,73 @@ def geometry(seed):
     return [ps[0], ps[1], og[0], og[1]]
 
 
+def plan(tier, rank, j, nsub):
+    """Which transforms a case runs (the last entry of the case): "*" = all of TRANSFORMS + M2O (thorough), otherwise
+    the comma-joined ids of the ROTATING / M2O transforms that run besides FIXED (which always run).  The case is the
+    j-th of the `nsub` sub-size maps its mask is enumerated with; windows into ROTATING / M2O are cyclic.
+
+    quick, nsub == 5 (rank = number of the mask in its frame): 4 of the 6 ROTATING transforms, window starting at
+    rank + 2*j (the 5 sub-size maps of one mask give every ROTATING transform 3 or 4 times); 2 many-to-one transforms
+    starting at rank + 2*j (the 5 sub-size maps of one mask cover the 10 many-to-one transforms exactly once).
+    quick, nsub == 2 (rank = number of the mask in its mask class): 3 of the 6 ROTATING transforms, window starting at
+    rank + 3*j (the two sub-size maps of one mask cover all 6); 3 many-to-one transforms starting at 3*rank + 5*j (6 of
+    the 10 per mask, all 10 over any two consecutive masks of a class)."""
+    if tier == "thorough":
+        return "*"
+    n_rot, n_m2o, step_rot, step_m2o, rank_m2o = ROTATION[nsub]
+    sel = [ROTATING[(rank + step_rot * j + t) % len(ROTATING)] for t in range(n_rot)]
+    sel += [M2O[(rank_m2o * rank + step_m2o * j + t) % len(M2O)] for t in range(n_m2o)]
+    return ",".join(sel)
+
+
 def cases(tier, seed):
     geo = geometry(seed)
     tail = geo + [int(seed)]
     for (h, w, bits) in dom.all_mask_cases(9):
-        for sm in SUBMAPS:
-            yield ["m", h, w, bits, sm] + tail
+        for j, sm in enumerate(SUBMAPS):
+            yield ["m", h, w, bits, sm] + tail + [plan(tier, bits, j, 5)]
     for bits in range(1, 2 ** 9):
-        for sm in SUBMAPS:
-            yield ["i", 5, 5, 3, 3, bits, sm] + tail
+        for j, sm in enumerate(SUBMAPS):
+            yield ["i", 5, 5, 3, 3, bits, sm] + tail + [plan(tier, bits, j, 5)]
     if tier == "thorough":
         for (h, w) in ((2, 5), (5, 2), (2, 6), (6, 2)):
             for bits in range(2 ** (h * w) - 1):
                 for sm in SUBMAPS:
-                    yield ["m", h, w, bits, sm] + tail
+                    yield ["m", h, w, bits, sm] + tail + ["*"]
     for (h, w) in ((3, 4), (4, 3)):
+        seen = {}  # mask class -> number of masks of the class met so far
         for bits in range(2 ** 12 - 1):
-            for sm in (SUBMAPS if tier == "thorough" else ("u2", "pA")):
-                yield ["m", h, w, bits, sm] + tail
+            sms = SUBMAPS if tier == "thorough" else ("u2", "pA")
+            rank = 0
+            if tier != "thorough":
+                # the many-to-one window advances (by 3) from one mask to the next mask OF THE SAME CLASS (frame, number
+                # of unmasked / border / optional-border pixels), so every class of >= 2 masks meets the whole menu
+                m = dom.mask_from_bits(h, w, bits)
+                must, free = ref_border_classes(m)
+                key = (int((~m).sum()), len(must), len(free))
+                rank = seen.get(key, 0)
+                seen[key] = rank + 1
+            for j, sm in enumerate(sms):
+                yield ["m", h, w, bits, sm] + tail + [plan(tier, rank, j, len(sms))]
     if tier == "thorough":
         for bits in range(1, 2 ** 16):
-            yield ["i", 6, 6, 4, 4, bits, "u1"] + tail
+            yield ["i", 6, 6, 4, 4, bits, "u1"] + tail + ["*"]
         for bits in range(2 ** 16 - 1):
             for sm in ("u2", "pA"):
-                yield ["m", 4, 4, bits, sm] + tail
+                yield ["m", 4, 4, bits, sm] + tail + ["*"]
+
+
+def plan_of(case):
+    """Set of transform ids the case runs (cases recorded before the plan entry existed run everything)."""
+    k = 10 if case[0] == "m" else 12
+    p = case[k] if len(case) > k else "*"
+    if p == "*":
+        return set(TRANSFORMS) | set(M2O)
+    sel = set(p.split(",")) | set(FIXED)
+    unknown = sel - set(TRANSFORMS) - set(M2O)
+    if unknown:
+        raise ValueError("harness: unknown transform ids %s in case" % sorted(unknown))
+    return sel
 
 
 def mask_of(case):
@@ -198,10 +279,11 @@ def radii(P, c):
 
 
 class Stats:
-    __slots__ = ("moved", "kept_outside", "interior", "ties", "points")
+    __slots__ = ("moved", "kept_outside", "interior", "ties", "points", "dup_border")
 
     def __init__(self):
         self.moved = self.kept_outside = self.interior = self.ties = self.points = 0
+        self.dup_border = 0  # source planes in which >= 2 border points were bitwise the same coordinate
 
 
 def check_relocation(v, site, B, P, Q, st, ctx, suffix=""):
@@ -334,6 +416,67 @@ def transform(tid, G, geo, rs):
     if tid == "point":
         return np.zeros_like(G) + (ctr + L * e[:2])
     raise ValueError(tid)
+
+
+def lattice(Gp):
+    """Integer lattice coordinates (24 x pixel units) of the pixel-unit sub-grid: exact for every sub-size <= 4."""
+    Gi = np.rint(24.0 * Gp)
+    if float(np.max(np.abs(Gi - 24.0 * Gp))) > 1e-9:
+        raise RuntimeError("harness: 24 x pixel-unit sub-grid is not integer")
+    return Gi.astype(np.int64)
+
+
+def transform_m2o(tid, Gi, G, geo, rs):
+    """Source-plane image S = F(K(Gi)) of the sub-grid under an EXACTLY many-to-one map: K is a many-to-one map of the
+    integer lattice Gi of sub-pixel centres (24 units = 1 pixel), F an injective seed-drawn affine map (plus, for
+    M2O_JITTER, one jitter draw per distinct K-value) evaluated once per DISTINCT K-value, so that sub-pixels with the
+    same K-value receive bit-for-bit the same coordinate.  Returns (S, index of the distinct image point of each sub-pixel)."""
+    psy, psx = geo[0], geo[1]
+    L = 0.5 * (psy + psx)
+    ctr = np.array([0.5 * (G[:, 0].max() + G[:, 0].min()), 0.5 * (G[:, 1].max() + G[:, 1].min())])
+    e = rs.uniform(-0.1, 0.1, size=6)
+    c0 = (Gi.min(axis=0) + Gi.max(axis=0)) // 2 + 12 * rs.randint(0, 2, size=2)  # fold line / lattice anchor
+    q = rs.randint(-36, 37, size=2)  # image of the constant part
+    a = Gi[:, 0] - c0[0]
+    b = Gi[:, 1] - c0[1]
+    zero = np.zeros_like(a)
+    if tid == "m:fold-y":
+        k1, k2 = np.abs(a), b
+    elif tid == "m:fold-x":
+        k1, k2 = a, np.abs(b)
+    elif tid == "m:fold-yx":
+        k1, k2 = np.abs(a), np.abs(b)
+    elif tid == "m:fold-diag":  # reflection of the half plane y < x in the line y = x
+        k1, k2 = np.maximum(a, b), np.minimum(a, b)
+    elif tid == "m:proj-y":  # every row of sub-pixels lands on one point
+        k1, k2 = a, zero
+    elif tid == "m:proj-diag":  # every anti-diagonal lands on one point of the line y = x
+        k1, k2 = a + b, a + b
+    elif tid == "m:coarse2":  # rounding to a lattice of 2 pixels
+        k1, k2 = 48 * (a // 48), 48 * (b // 48)
+    elif tid == "m:coarse1.5":  # rounding to a lattice of 1.5 pixels
+        k1, k2 = 36 * (a // 36), 36 * (b // 36)
+    elif tid == "m:const-half":  # the upper half plane lands on one point, the rest is kept
+        up = a > 0
+        k1, k2 = np.where(up, q[0], a), np.where(up, q[1], b)
+    elif tid == "m:clamp-y":  # everything above a horizontal line is projected onto it
+        k1, k2 = np.minimum(a, 0), b
+    else:
+        raise ValueError(tid)
+    # distinct K-values through a scalar key (|k| < 2**20 by far)
+    key, first, inv = np.unique(k1 * (1 << 21) + k2, return_index=True, return_inverse=True)
+    inv = np.asarray(inv).reshape(-1)
+    Uf = np.stack([k1[first], k2[first]], axis=1).astype(float)
+    Su = np.stack(
+        [
+            ctr[0] + L * e[4] + psy * ((1.0 + e[0]) * Uf[:, 0] + e[1] * Uf[:, 1]) / 24.0,
+            ctr[1] + L * e[5] + psx * (e[2] * Uf[:, 0] + (1.0 + e[3]) * Uf[:, 1]) / 24.0,
+        ],
+        axis=1,
+    )
+    if tid in M2O_JITTER:
+        Su = Su + rs.uniform(-0.2, 0.2, size=Su.shape) * np.array([psy, psx])
+    return Su[inv], inv
 
 
 def point_menus(B, geo, rs):
@@ -497,9 +640,18 @@ def run_case(case):
 
     saved = {}
     prev = None
-    for ti, tid in enumerate(TRANSFORMS):
-        rs = dom.rng(seed, "c18", tid, H, W, sm)
-        S = transform(tid, G, geo, rs)
+    sel = plan_of(case)
+    Gi = lattice(Gp)
+    rs_m = dom.rng(seed, "c18-m2o", H, W, sm)
+    for tid in [t for t in TRANSFORMS + M2O if t in sel]:
+        if tid in M2O:
+            rs = rs_m
+            S, which = transform_m2o(tid, Gi, G, geo, rs)
+            if np.unique(which[sbs]).size < len(sbs):
+                st.dup_border += 1
+        else:
+            rs = dom.rng(seed, "c18", tid, H, W, sm)
+            S = transform(tid, G, geo, rs)
         outl, extra = point_menus(S[sbs], geo, rs)
         # data grid: every second non-border point is replaced by an outlier / special point
         menu = np.concatenate([outl, extra[1:9]], axis=0)
@@ -611,7 +763,8 @@ def run_case(case):
 
     v.nontrivial = len(sbs) >= 3 and st.moved > 0 and st.kept_outside > 0
     bucket = lambda x: "0" if x == 0 else ("1-9" if x < 10 else ("10-99" if x < 100 else "100+"))
-    v.outcome = "nb=%d|moved=%s|kept-outside=%s|ties=%s" % (min(len(sbs), 8), bucket(st.moved), bucket(st.kept_outside), bucket(st.ties))
+    v.outcome = "nb=%d|moved=%s|kept-outside=%s|ties=%s|dup-border-planes=%d" % (
+        min(len(sbs), 8), bucket(st.moved), bucket(st.kept_outside), bucket(st.ties), min(st.dup_border, 3))
     return v.result()
 
 
